@@ -25,7 +25,7 @@ def run(ctx):
     ctx.tlc_mc("MC_Brutal", "MC_Brutal_big.cfg" if T else "MC_Brutal.cfg", coverage=T)
     ctx.tlc_mc("MC_Brutal", "MC_BrutalAck_big.cfg" if T else "MC_BrutalAck.cfg", coverage=T)
     # quick: one model mutant per configuration (non-vacuity); thorough: all six
-    muts = ["MC_Brutal_mutCeil.cfg", "MC_BrutalAck_mutStale.cfg"]
+    muts = ["MC_Brutal_mutCeil.cfg", "MC_Brutal_mutStamp.cfg", "MC_BrutalAck_mutStale.cfg"]
     if T:
         muts += ["MC_Brutal_mutCap.cfg", "MC_BrutalAck_mutClamp.cfg", "MC_Brutal_mutConsume.cfg", "MC_Brutal_mutFloor.cfg"]
     for m in muts:
@@ -35,7 +35,7 @@ def run(ctx):
     ctx.go_test("core", "./internal/congestion/brutal/", "TestVerif_C11$", ["harness/core/internal/congestion/brutal/c11_test.go"])
     ctx.validate("Prop_C11", sig=sig, distinct=distinct)
     ctx.assumptions += ["the time since the last send stays in the range where rate x gap fits 63 bits (stated in the property's quantifier)",
-                        "paced sends carry at most one datagram; ACK-only packets (not gated by pacing) are not counted as bytes released by pacing",
+                        "bytes released by pacing = min(size, one datagram) of every send made on a HasPacingBudget grant; packets that bypass pacing (ACK-only, PTO/tail-loss probes) and the part of an oversize packet above one datagram are not counted, but they drain the observer's bucket as they must drain the pacer's (floored at zero, accrual restarting at that send)",
                         "the loss-compensation factor is read from BrutalSender.ackRate (white box) as floor(f*2^16); the float comparisons f>=0.8, f<=1 are observed by the harness",
                         "bounded burst := 2 x max(4 ms x rate/0.8, 10 datagrams)"]
     return ctx.finish(rule="paced sends, ack/loss batches and non-trivial wake-ups recorded from the real BrutalSender (TLC-generated schedules in two time scales + seeded loops at 24+ rates)")
